@@ -57,6 +57,29 @@ fn sequence<F: Family>(input: &Input, ctx: &mut Ctx) -> CaseResult {
 }
 
 fn check_sequence<F: Family>(pkts: Vec<F::Packet>, big: bool, t: &mut Tape, ctx: &mut Ctx) -> CaseResult {
+    check_sequence_spelled::<F>(pkts, big, false, t, ctx)
+}
+
+/// a sequence in which every packet is written in another spelling the grammar allows (long ack / DISCONNECT / AUTH
+/// forms with an explicit empty property section, reason-only forms, shuffled properties; var-ints stay minimal)
+fn respelled_sequence<F: Family>(input: &Input, ctx: &mut Ctx) -> CaseResult {
+    let mut t = Tape::new(input.tape());
+    let n = 2 + t.weighted(&[5, 5, 4, 3, 2, 1]);
+    let mut pkts: Vec<F::Packet> = Vec::new();
+    for _ in 0..n {
+        // the types with more than one spelling are drawn more often
+        let p = if t.chance(2, 3) {
+            let typ = [3usize, 4, 5, 6, 13, 14, 1, 2][t.pick(8)] % F::NTYPES;
+            F::gen_of_type(&mut t, &GenCfg::SMALL, typ).map_err(|e| Violation::new(e.0))?
+        } else {
+            F::gen(&mut t, &GenCfg::SMALL).map_err(|e| Violation::new(e.0))?
+        };
+        pkts.push(p);
+    }
+    check_sequence_spelled::<F>(pkts, false, true, &mut t, ctx)
+}
+
+fn check_sequence_spelled<F: Family>(pkts: Vec<F::Packet>, big: bool, spelled: bool, t: &mut Tape, ctx: &mut Ctx) -> CaseResult {
     let n = pkts.len();
     let mut encs: Vec<Vec<u8>> = Vec::new();
     for p in &pkts {
@@ -64,6 +87,40 @@ fn check_sequence<F: Family>(pkts: Vec<F::Packet>, big: bool, t: &mut Tape, ctx:
             Ok(b) => b.as_ref().to_vec(),
             Err(e) => viol!("encode of a valid packet failed: {:?}; packet {}", e, fam::render(p)),
         };
+        if spelled {
+            let mut w = crate::model::normalize(&F::project(p));
+            let orig = w.clone();
+            let tags = crate::mutate::respell(&mut w, t, false);
+            // the order of the user properties among themselves is part of the packet's value: put them back into
+            // their original order in whatever slots the shuffle gave to user properties
+            for will in [false, true] {
+                let src: Vec<crate::model::Prop> = match if will { crate::mutate::will_props(&orig) } else { crate::mutate::main_props(&orig) } {
+                    Some(ps) => ps.items.iter().filter(|x| x.id == 0x26).cloned().collect(),
+                    None => continue,
+                };
+                if let Some(ps) = if will { crate::mutate::will_props_mut(&mut w) } else { crate::mutate::main_props_mut(&mut w) } {
+                    let mut it = src.into_iter();
+                    for slot in ps.items.iter_mut().filter(|x| x.id == 0x26) {
+                        if let Some(u) = it.next() {
+                            *slot = u;
+                        }
+                    }
+                }
+            }
+            match crate::model::serialize(&w) {
+                Some(b) => {
+                    if b != e {
+                        ctx.label("respelled-frame");
+                        for tg in tags {
+                            ctx.label(&format!("spelling:{}", tg));
+                        }
+                    }
+                    encs.push(b);
+                }
+                None => encs.push(e),
+            }
+            continue;
+        }
         encs.push(e);
     }
     let stream: Vec<u8> = encs.concat();
@@ -104,9 +161,13 @@ fn check_sequence<F: Family>(pkts: Vec<F::Packet>, big: bool, t: &mut Tape, ctx:
                 }
             }
         }
-        off += match F::encode_len(p) {
-            Ok(x) => x,
-            Err(e) => viol!("encode_len failed: {}", e),
+        off += if spelled {
+            plen
+        } else {
+            match F::encode_len(p) {
+                Ok(x) => x,
+                Err(e) => viol!("encode_len failed: {}", e),
+            }
         };
         let (hl, rl) = refdec::frame_bounds(&stream[off2..]).map_err(|e| Violation::new(format!("stream has no header at {}: {:?}", off2, e)))?;
         match mqtt_proto::total_len(rl) {
@@ -297,17 +358,25 @@ pub const SUB_P3: Sub = Sub { name: "c08.pairs.v3", f: pair_sequence::<V3> };
 pub const SUB_P5: Sub = Sub { name: "c08.pairs.v5", f: pair_sequence::<V5> };
 pub const SUB_Z3: Sub = Sub { name: "c08.sized.v3", f: sized_sequence::<V3> };
 pub const SUB_Z5: Sub = Sub { name: "c08.sized.v5", f: sized_sequence::<V5> };
+pub const SUB_R3: Sub = Sub { name: "c08.respelled.v3", f: respelled_sequence::<V3> };
+pub const SUB_R5: Sub = Sub { name: "c08.respelled.v5", f: respelled_sequence::<V5> };
 pub const SUB_V3: Sub = Sub { name: "c08.sequence.v3", f: sequence::<V3> };
 pub const SUB_V5: Sub = Sub { name: "c08.sequence.v5", f: sequence::<V5> };
 
 pub fn subs() -> Vec<Sub> {
-    vec![SUB_V3, SUB_V5, SUB_Z3, SUB_Z5, SUB_P3, SUB_P5, SUB_DH3, SUB_DH5]
+    vec![SUB_V3, SUB_V5, SUB_Z3, SUB_Z5, SUB_P3, SUB_P5, SUB_DH3, SUB_DH5, SUB_R3, SUB_R5]
 }
 
 pub fn run(env: &mut Env) -> RunResult {
     let n = env.tier.sel(40_000, 300_000);
     env.run_tapes(SUB_V3, n, 400)?;
     env.run_tapes(SUB_V5, n, 700)?;
+    env.run_tapes(SUB_R3, n / 8, 400)?;
+    env.run_tapes(SUB_R5, n / 2, 700)?;
+    env.require("c08.respelled.v5", "respelled-frame");
+    env.require("c08.respelled.v5", "spelling:ack:explicit-empty-properties");
+    env.require("c08.respelled.v5", "spelling:ack:reason-only");
+    env.require("c08.respelled.v5", "spelling:properties:shuffled");
     let sizes: Vec<Input> = [126u64, 127, 128, 129, 16_382, 16_383, 16_384, 16_385, 16_386, 2_097_150, 2_097_151, 2_097_152, 2_097_153, 2_097_154, 2_097_155, 2_097_156]
         .iter()
         .map(|x| Input::Nums(vec![*x]))
